@@ -80,7 +80,8 @@ def other_values():
     return [('int0', 0), ('int7', 7), ('int1234567', 1234567),
             ('int-1234567', -1234567), ('float0', 0.0), ('float', 1234.5),
             ('none', None), ('emptylist', []), ('emptydict', {}),
-            ('obj', WithMethod())]
+            ('obj', WithMethod()), ('tuple1', (7,)), ('tuple0', ()),
+            ('tuple2', (1, 'a_b')), ('list1', [7])]
 
 
 def all_values():
@@ -147,6 +148,7 @@ def cases(tier):
         yield {'fam': 'stage', 'value': vid}
     yield {'fam': 'commas'}
     yield {'fam': 'defraise'}
+    yield {'fam': 'cfmt'}
     for i in range(len(TEXTS)):
         yield {'fam': 'trunc', 'value': 'str:%d' % i}
         yield {'fam': 'trunc', 'value': 'bytes:%d' % i}
@@ -528,6 +530,30 @@ def run_null(res, case):
     res.sample = {'value': repr(v), 'tag': tag(['null="N_n"', 'upper'])}
 
 
+def run_cfmt(res, case):
+    """the C-style format stage formats the value itself: '%<fmt>' % (v,)"""
+    n = 0
+    for vid, v in all_values():
+        if isinstance(v, bytes):
+            continue
+        for c in ('5s', '.3s', '12s', '1s', '12.5s'):
+            try:
+                want = ('ok', ('%' + c) % (v,))
+            except Exception as e:
+                want = ('exc', type(e).__name__)
+            if v is None or (not v and v != 0):
+                pass        # no null= given: None is formatted as well
+            got = rend(tag([], True, c), True, x=v)
+            n += 1
+            if got != want:
+                res.violate('law', 'law:cfmt:%s' % vid.split(':')[0].rstrip(
+                    '0123456789-'), {'value': repr(v), 'tag': tag([], True, c),
+                                     'got': repr(got), 'expected': repr(want)})
+    res.evals = n
+    res.nt_count = n
+    res.sample = {'tag': '%(x)5s', 'law': "'%5s' % (value,)"}
+
+
 def run_defined_raises(res, case):
     """missing= is for *undefined* names only: a defined name whose callable
     (or sub-template) raises, also a KeyError, propagates that error"""
@@ -567,7 +593,7 @@ def run_defined_raises(res, case):
                   'raises KeyError'}
 
 
-RUNNERS = {'defraise': run_defined_raises, 'perm': run_perm, 'law': run_law, 'commas': run_commas, 'round': run_round,
+RUNNERS = {'cfmt': run_cfmt, 'defraise': run_defined_raises, 'perm': run_perm, 'law': run_law, 'commas': run_commas, 'round': run_round,
            'trunc': run_trunc, 'stage': run_stage, 'null': run_null}
 
 
